@@ -68,7 +68,10 @@ def prepare():
 # --------------------------------------------------------------------------------------
 SPECIES = "ABCDEFGH"
 # species names that are prefixes of each other or differ by more than case
-TRICKY_SPECIES = ["A", "AB", "ABC", "B", "Ba", "C", "c1", "D"]
+TRICKY_SPECIES = ["A", "AB", "S2", "B", "Ba", "s0", "c1", "D"]
+# names equal up to case: legal wherever the leaf assignment is explicit (species inference from
+# leaf names is documented as case-insensitive, so these are never used with inference)
+CASE_PAIR_SPECIES = ["A", "a", "Ab", "AB", "S2", "s2", "B", "b"]
 FAMILIES = ["a", "b", "c", "d", "e", "f"]
 TRICKY_FAMILIES = ["g10", "g2", "B", "a", "c_1", "G3"]
 
@@ -120,11 +123,12 @@ def _costs(draw, labelled, coherent=True):
 
 @st.composite
 def _input(draw, labelled, max_obj, max_sp, max_fam, polytomy=False, coherent=True,
-           min_obj=1, single_family=False, chain=False):
+           min_obj=1, single_family=False, chain=False, case_pairs=False):
     if chain:
         # swarm mode "deep chain": a 5-leaf caterpillar over 2-3 species - the shape on which
         # inheritance chains of the unordered model and path-dependent decoding live
-        pool = SPECIES if draw(st.integers(0, 3)) else TRICKY_SPECIES
+        pool = SPECIES if draw(st.integers(0, 3)) else (
+            CASE_PAIR_SPECIES if case_pairs and draw(st.booleans()) else TRICKY_SPECIES)
         nsp = draw(st.integers(2, 3))
         species = draw(_shape(list(pool[:nsp]), 2))
         nobj = max(5, min(max_obj, draw(st.integers(5, 7))))
@@ -134,7 +138,8 @@ def _input(draw, labelled, max_obj, max_sp, max_fam, polytomy=False, coherent=Tr
         for leaf in order[1:]:
             obj = [obj, leaf] if draw(st.booleans()) else [leaf, obj]
     else:
-        pool = SPECIES if draw(st.integers(0, 3)) else TRICKY_SPECIES
+        pool = SPECIES if draw(st.integers(0, 3)) else (
+            CASE_PAIR_SPECIES if case_pairs and draw(st.booleans()) else TRICKY_SPECIES)
         nsp = draw(_size(1, max_sp))
         species = draw(_shape(list(pool[:nsp]), 3 if polytomy else 2))
         nobj = draw(_size(min_obj, max_obj))
@@ -251,7 +256,7 @@ def _case(draw, pid, tier):
     inputs = [
         draw(_input(labelled, max_obj, max_sp, max_fam, polytomy, coherent,
                     min_obj=2 if pid in ("C08",) else 1, single_family=single_family,
-                    chain=chain))
+                    chain=chain, case_pairs=True))
         for _ in range(ninputs)
     ]
     ops = []
